@@ -249,9 +249,11 @@ PROPS = {
         "level_text": "Proof (Verus/Z3) on the real cell_to_boundary and get_pentagon that for every u64 and every options value the "
                       "result is Err for non-cells, empty for world-cell aliases, and otherwise has exactly vertices*n (+1 when closed) "
                       "points with n = max(segments, 1) or the resolution-dependent default, and a closed ring repeats its first point.",
-        "level_note": "Vertex counts of the float-layer shapes are assumed contracts (see assumptions); only the counting/closure logic of "
-                      "cell_to_boundary itself is proved.",
-        "technique": "Verus contract on the extracted real cell_to_boundary with the float layer as assumed contract boundary",
+        "level_note": "The counting / closure logic of cell_to_boundary and the vertex counts of the shapes it receives (tiling.rs, "
+                      "geometry/pentagon.rs, unit shape) are proved; the float sentences (finite, latitude range, orientation, centre "
+                      "inside, longitude window, stable corners) only have a sampled bounded stand-in (boundary_geometry).",
+        "technique": "Verus contracts on the extracted real cell_to_boundary / get_pentagon (unit glue) and on the shape-producing "
+                     "functions of tiling.rs and geometry/pentagon.rs (unit shape), float arithmetic as stubs",
     },
     "C10": {
         "units": ["compact"],
@@ -309,7 +311,9 @@ PROPS = {
             {"op": "purity", "budget": 400, "timeout": 900, "what": "whole public API, BOUNDED stand-in for the sentences no contract here can "
              "decide: several hundred lonlat_to_cell / cell_to_lonlat / cell_to_boundary / get_num_cells / cell_area calls give "
              "bit-identical answers as the first call of a fresh thread, after the other calls in the same thread (call, reverse and "
-             "shuffled order) and in fresh threads after other threads used the library"},
+             "shuffled order), while six threads use the library at the same time in different orders (schedule uncontrolled: "
+             "exploration), and in fresh threads after other threads used the library; back-to-back calls on cells whose curve "
+             "position differs in one bit are part of the sequence"},
         ],
         "search_ops": ["purity"],
         "level_text": "Proof (Verus/Z3) on the real get_face_triangle, get_spherical_triangle, get_face_triangle_index, forward and inverse "
@@ -426,8 +430,11 @@ PROPS = {
         "search_ops": ["cell_area", "get_num_cells", "cell_area_measured"],
         "level_text": "Verus: the real get_num_cells returns 12, 60*4^(r-1) exactly for r <= 27 and values within 1e-15 relative for the "
                       "two JS-rounded literals (28, 29), without overflow for any i32. Kani closed-term (complete, r = 0..29): the real "
-                      "cell_area(r) equals AUTHALIC_AREA / N(r) to 1e-12 relative with N the exact count.",
-        "level_note": "IEEE multiplication/division are bit-precise in CBMC; no transcendental function is involved.",
+                      "cell_area(r) equals AUTHALIC_AREA / N(r) to 1e-12 relative with N the exact count. Sentence 1 (areas measured from "
+                      "reported boundaries) is float geometry outside any contract: a sampled bounded stand-in (cell_area_measured) runs "
+                      "with every check and is not part of the proof.",
+        "level_note": "IEEE multiplication/division are bit-precise in CBMC; no transcendental function is involved. The level 'proof' "
+                      "refers to sentence 2 only.",
         "technique": "Verus contract on get_num_cells + Kani closed-term harness on cell_area",
     },
     "C06": {
@@ -462,8 +469,10 @@ PROPS = {
         "level_text": "Proof that the integer labelling stages equal the frozen reference release: Verus (bit layout of the real "
                       "serialize/deserialize/get_resolution == documented layout with the reference face table) and complete closed-term "
                       "Kani harnesses on the real code (face table and frames bit-for-bit, relabelling 12x5, digit-shift and flip tables, "
-                      "literal constants, cell_area). The curve walk s_to_anchor is compared with the reference for all positions of "
-                      "depth <= 2 (quick) / <= 3 (thorough): bounded, labelled so.",
+                      "literal constants, cell_area). The curve walk s_to_anchor is compared with a frozen copy of the reference code for "
+                      "all positions of depth <= 3 (quick) / <= 6 (thorough): bounded, labelled so. The property's main sentence - same ID "
+                      "for every point, same centre and corners to 1e-9 degrees - runs through the f64 pipeline and is NOT proved: a "
+                      "bounded stand-in over a frozen sample of 8191 reference outputs runs with every check.",
         "level_note": "See assumptions: float pipeline and the 1e-9-degree sentence are out of reach of both back ends; a bounded "
                       "stand-in over a frozen sample of reference outputs runs on every check.",
         "technique": "Verus layout contract + Kani closed-term equalities against a frozen reference; bounded Kani for the curve walk",
